@@ -254,6 +254,101 @@ def overPy {α} (w : World α) (c : Ctx α) (id : Nat) (sig : Sig) := overPyWith
 def atPy {α} (w : World α) (c : Ctx α) (id : Nat) (sig : Sig) := atPyWith (α := α) lambdaArgs w c id sig
 def projPy {α} (w : World α) (c : Ctx α) (id : Nat) (sig : Sig) := projPyWith (α := α) lambdaArgs w c id sig
 
+/-! ### the other adverbs (klongpy/adverbs.py eval_adverb_each2 / _each_left / _each_right /
+    _each_pair / _scan_over / _over_neutral / _scan_over_neutral).  The members of a string operand
+    are its characters, one member per position (repeats included). -/
+
+/-- a sequence of independent applications: one call per argument tuple, in order -/
+def seqPyWith {α} (argsOf : Sig → List Param) (w : World α) (c : Ctx α) (id : Nat) (sig : Sig) :
+    List (List α) → Log α → Out α × Log α
+  | [], log => (.list [], log)
+  | t :: ts, log =>
+    match applyPyWith argsOf w c id sig t log with
+    | (.val r, log1) =>
+      match seqPyWith argsOf w c id sig ts log1 with
+      | (.list rs, log2) => (.list (r :: rs), log2)
+      | other => other
+    | other => other
+
+def pairsOf {α} : List α → List (List α)
+  | a :: b :: rest => [a, b] :: pairsOf (b :: rest)
+  | _ => []
+
+/-- `f:'a`: an atom-like operand (no or one member) comes back untouched -/
+def eachPairPyWith {α} (argsOf : Sig → List Param) (w : World α) (c : Ctx α) (id : Nat) (sig : Sig)
+    (elems : List α) (log : Log α) : Out α × Log α :=
+  match elems with
+  | [] => (.list [], log)
+  | [a] => (.list [a], log)
+  | _ => seqPyWith argsOf w c id sig (pairsOf elems) log
+
+/-- `a f:\b` -/
+def eachLeftPyWith {α} (argsOf : Sig → List Param) (w : World α) (c : Ctx α) (id : Nat) (sig : Sig)
+    (a : α) (bs : List α) (log : Log α) : Out α × Log α :=
+  seqPyWith argsOf w c id sig (bs.map fun b => [a, b]) log
+
+/-- `a f:/b` -/
+def eachRightPyWith {α} (argsOf : Sig → List Param) (w : World α) (c : Ctx α) (id : Nat) (sig : Sig)
+    (a : α) (bs : List α) (log : Log α) : Out α × Log α :=
+  seqPyWith argsOf w c id sig (bs.map fun b => [b, a]) log
+
+/-- `a f'b` for two lists -/
+def each2PyWith {α} (argsOf : Sig → List Param) (w : World α) (c : Ctx α) (id : Nat) (sig : Sig)
+    (as bs : List α) (log : Log α) : Out α × Log α :=
+  seqPyWith argsOf w c id sig (List.zipWith (fun a b => [a, b]) as bs) log
+
+/-- the intermediate results of a fold after `acc` -/
+def scanFromWith {α} (argsOf : Sig → List Param) (w : World α) (c : Ctx α) (id : Nat) (sig : Sig) :
+    α → List α → Log α → Out α × Log α
+  | _, [], log => (.list [], log)
+  | acc, e :: es, log =>
+    match applyPyWith argsOf w c id sig [acc, e] log with
+    | (.val r, log1) =>
+      match scanFromWith argsOf w c id sig r es log1 with
+      | (.list rs, log2) => (.list (r :: rs), log2)
+      | other => other
+    | other => other
+
+/-- `f\a` -/
+def scanPyWith {α} (argsOf : Sig → List Param) (w : World α) (c : Ctx α) (id : Nat) (sig : Sig) :
+    List α → Log α → Out α × Log α
+  | [], log => (.list [], log)
+  | a :: es, log =>
+    match scanFromWith argsOf w c id sig a es log with
+    | (.list rs, log1) => (.list (a :: rs), log1)
+    | other => other
+
+/-- `a f/b`: b = [] gives a -/
+def overNeutralPyWith {α} (argsOf : Sig → List Param) (w : World α) (c : Ctx α) (id : Nat) (sig : Sig)
+    (a : α) (bs : List α) (log : Log α) : Out α × Log α :=
+  overFromWith argsOf w c id sig a bs log
+
+/-- `a f\b`: b = [] gives a -/
+def scanNeutralPyWith {α} (argsOf : Sig → List Param) (w : World α) (c : Ctx α) (id : Nat) (sig : Sig)
+    (a : α) (bs : List α) (log : Log α) : Out α × Log α :=
+  match bs with
+  | [] => (.val a, log)
+  | _ => scanPyWith argsOf w c id sig (a :: bs) log
+
+def seqPy {α} (w : World α) (c : Ctx α) (id : Nat) (sig : Sig) := seqPyWith (α := α) lambdaArgs w c id sig
+def scanPy {α} (w : World α) (c : Ctx α) (id : Nat) (sig : Sig) := scanPyWith (α := α) lambdaArgs w c id sig
+
+/-- reference for a sequence of applications -/
+def seqSpec {α} (w : World α) (id : Nat) (k : Bool) : List (List α) → Log α → List α × Log α
+  | [], log => ([], log)
+  | t :: ts, log =>
+    let r := w.ret id log.length t
+    let (rs, log') := seqSpec w id k ts (log ++ [⟨id, k, t⟩])
+    (r :: rs, log')
+
+/-- reference for Scan: the intermediate results and the log of a left fold of single calls -/
+def scanSpec {α} (w : World α) (id : Nat) (k : Bool) : α → List α → Log α → List α × Log α
+  | _, [], log => ([], log)
+  | acc, e :: es, log =>
+    let r := w.ret id log.length [acc, e]
+    let (rs, log') := scanSpec w id k r es (log ++ [⟨id, k, [acc, e]⟩])
+    (r :: rs, log')
+
 /-- reference for Over: what a left fold of single logged calls produces -/
 def overSpec {α} (w : World α) (id : Nat) (k : Bool) : α → List α → Log α → α × Log α
   | acc, [], log => (acc, log)
@@ -474,6 +569,21 @@ def handle (s : State) (ws : List String) : State × String :=
         | "each" => finish s (eachPyWith s.argsOf s.world c id sig args s.log)
         | "over" => finish s (overPyWith s.argsOf s.world c id sig args s.log)
         | "at" => finish s (atPyWith s.argsOf s.world c id sig args s.log)
+        | "scan" => finish s (scanPyWith s.argsOf s.world c id sig args s.log)
+        | "eachpair" => finish s (eachPairPyWith s.argsOf s.world c id sig args s.log)
+        | "each2" =>
+          match parseNats (fieldD fs "left") with
+          | some l => finish s (each2PyWith s.argsOf s.world c id sig l args s.log)
+          | none => (s, "bad-op")
+        | "eachleft" | "eachright" | "overn" | "scann" =>
+          match natField fs "left" with
+          | some a =>
+            match fieldD fs "form" with
+            | "eachleft" => finish s (eachLeftPyWith s.argsOf s.world c id sig a args s.log)
+            | "eachright" => finish s (eachRightPyWith s.argsOf s.world c id sig a args s.log)
+            | "overn" => finish s (overNeutralPyWith s.argsOf s.world c id sig a args s.log)
+            | _ => finish s (scanNeutralPyWith s.argsOf s.world c id sig a args s.log)
+          | none => (s, "bad-op")
         | _ => (s, "bad-op")
       | _ => (s, "not-a-callable")
     | _, _, _ => (s, "bad-op")
